@@ -1,12 +1,62 @@
 /-
-  Oracle commands for C15 (stub: owns no commands yet).
+  Oracle commands for C15: the lockset / stale-pointer RULE of Model/Lockset.lean evaluated on a
+  fact table given on the line (the translator's self-test stream sends random tables and its
+  own answer; the check compares them exactly).
+
+    rule <n> {site cls kind <nl> {lockcls self}* thread single init racy atomic
+              <np> pre* <nq> post* <nh> hb* use live valid}*n  <nc> cleared*  <Gcls> <Scls>
+        -> v {cls,site,site}* s {cls,site}* b {cls}*
 -/
+import OllamaVerif.Model.Lockset
 import Oracle.Util
 namespace Oracle.C15
-open Oracle
+open Oracle OllamaVerif.Lockset
+
+def pBool : TP Bool := do
+  let n ← nat
+  pure (n != 0)
+
+def pKind : TP Kind := do
+  let n ← nat
+  match n with
+  | 0 => pure .read | 1 => pure .write | 2 => pure .mapRead | 3 => pure .mapIter
+  | 4 => pure .mapInsert | 5 => pure .mapDelete | _ => failure
+
+def pLock : TP LockRef := do
+  let c ← nat
+  let s ← pBool
+  pure ⟨c, s⟩
+
+def pAccess : TP Access := do
+  let site ← nat
+  let cls ← nat
+  let kind ← pKind
+  let locks ← listOf pLock
+  let thread ← nat
+  let single ← pBool
+  let init ← pBool
+  let racy ← pBool
+  let atomic ← pBool
+  let pre ← listOf nat
+  let post ← listOf nat
+  let hb ← listOf nat
+  let use ← pBool
+  let live ← pBool
+  let valid ← pBool
+  pure { site, cls, kind, locks, thread, single, init, racy, atomic, pre, post, hb, use, live, valid }
 
 def handle (toks : List String) : Option String :=
   match toks with
+  | "rule" :: rest =>
+    runTP (do
+      let facts ← listOf pAccess
+      let cleared ← listOf nat
+      let g ← nat
+      let s ← nat
+      let vs := (violatingPairs facts).map (fun p => s!" {p.1},{p.2.1},{p.2.2}")
+      let st := (staleReads facts cleared 1 ⟨g, false⟩ ⟨s, true⟩).map (fun p => s!" {p.1},{p.2}")
+      let bad := ((badClasses facts).toArray.qsort (· < ·)).toList.map (fun c => s!" {c}")
+      pure ("v" ++ String.join vs ++ " s" ++ String.join st ++ " b" ++ String.join bad)) rest
   | _ => none
 
 end Oracle.C15
